@@ -430,6 +430,9 @@ def run(ctx):
     cov["states"] = mc_states + st
     cov["transitions"] = mc_trans + tr
     cov["mc_states"] = mc_states
+    # "every partition list a Writer can supply": what the real Writer hands to its Balancer (TLC monitor WriterMon.tla)
+    from engines import writer
+    cov["writer_supplied_lists"] = writer.offered_part(ctx)
     return cov
 
 
